@@ -98,12 +98,12 @@ def run_worker(cases, timeout_per_case=20):
     (fatal errors, stack overflow, OOM): the case that killed it gets a FATAL result."""
     results = [None] * len(cases)
     pos = 0
-    env = dict(GOENV, GOMEMLIMIT="2GiB", GOTRACEBACK="none")
+    env = dict(GOENV, GOMEMLIMIT="1GiB", GOTRACEBACK="none")
     while pos < len(cases):
         chunk = cases[pos:]
         data = "".join(json.dumps(c) + "\n" for c in chunk)
         try:
-            p = subprocess.run(["bash", "-c", "ulimit -v 8000000; exec %s exec" % WORKER], input=data, env=env,
+            p = subprocess.run(["bash", "-c", "ulimit -v 6000000; exec %s exec" % WORKER], input=data, env=env,
                                stdout=subprocess.PIPE, stderr=subprocess.PIPE, text=True,
                                timeout=60 + timeout_per_case * len(chunk) // 50)
             out, rc, err = p.stdout, p.returncode, p.stderr
@@ -122,6 +122,8 @@ def run_worker(cases, timeout_per_case=20):
             if n >= len(chunk):
                 break
         pos += n
+        if n > 0 and isinstance(results[pos - 1], dict) and "fatal" in results[pos - 1]:
+            continue        # the worker reported the fatal case itself and exited
         if pos < len(cases) and (n < len(chunk)):
             # the worker died (or hung) on cases[pos]
             why = "timeout" if err == "timeout" else ("exit %s: %s" % (rc, (err or "").strip().split("\n")[0][:160]))
